@@ -492,10 +492,11 @@ func c26GenChains(thorough bool, emit c26EmitFn) {
 }
 
 // c26GenFamilies emits the generated families in the order case, state,
-// chain, quote (c26_quote.go).
+// chain, quote (c26_quote.go), loop (c26_loops.go).
 func c26GenFamilies(thorough bool, emit c26EmitFn) {
 	c26GenCase(thorough, emit)
 	c26GenState(thorough, emit)
 	c26GenChains(thorough, emit)
 	c26GenQuoting(thorough, emit)
+	c26GenLoops(thorough, emit)
 }
